@@ -1,12 +1,16 @@
 #!/bin/bash
-# usage: seedtest.sh <patch.diff> <prop> [<prop>...] : apply to /repo, run the quick checks, undo
+# usage: seedtest.sh <patch.diff> <prop> [<prop>...] : apply to /repo, run the quick checks, undo.
+# The evidence files describe runs on the unchanged tree only: they are saved before and restored afterwards.
 set -u
 patch=$1; shift
 cd /repo || exit 2
 if [ -n "$(git status --porcelain)" ]; then echo "/repo has uncommitted changes: commit them first"; exit 2; fi
 git apply "$patch" || { echo "patch does not apply"; exit 2; }
+save=/verif/work/evidence.save.$$
+mkdir -p /verif/work; rm -rf $save; cp -r /verif/evidence $save
 for p in "$@"; do
   ( cd /verif && timeout 1800 ./check $p --tier quick 2>&1 | grep -E "VIOLATION|^\[$p\]" | head -4 )
 done
 git -C /repo checkout -- . 
 git -C /repo status --short | head -3
+cp $save/*.json /verif/evidence/ && rm -rf $save
